@@ -39,6 +39,8 @@ var commonAssumptions = []string{
 
 func checks() []Check {
 	return []Check{
+		{ID: "SMOKE", Level: "model_checking", Rule: "smoke", Assumptions: commonAssumptions,
+			Units: []Unit{{Name: "smoke", Pkg: ".", Tags: "verifmc", Test: "TestMC_Smoke", Instrument: true, Env: []string{"GOMAXPROCS=2"}}}},
 		{
 			ID: "C12", Level: "model_checking",
 			Rule: "explicit-state BFS over Get/Put/PutForeign/GC sequences on a fresh byteslice.Pool with an address ledger (every array ever seen is kept alive, so addresses identify memory), and over Get/Write/Put/GC on a fresh ringbuffer.Pool; a state is distinct by (outstanding slices len/cap in Get order, pooled regions cap/age in Put order, GC count)",
@@ -103,6 +105,24 @@ func checks() []Check {
 				{Name: "bsindex", Pkg: "pkg/pool/byteslice", Test: "TestMC_C20idx", Weight: 16},
 				{Name: "gfd", Pkg: "internal/gfd", Test: "TestMC_C20gfd", Weight: 1},
 			},
+		},
+		{
+			ID: "C04", Level: "model_checking",
+			Rule:        "stateless model checking of the real engine (instrumented, real unix sockets/epoll) under the cooperative scheduler: every interleaving up to a preemption bound of main, event loops, peers and user threads over a catalogue of connection histories; an execution is one evaluation; per-connection lifecycle monitor",
+			Assumptions: append([]string{"AF_UNIX stream sockets (synchronous delivery/EOF/HUP), this kernel's epoll semantics", "connection identity = the Conn value handed to OnOpen"}, commonAssumptions...),
+			Units:       []Unit{{Name: "life", Pkg: ".", Tags: "verifmc", Test: "TestMC_C04", Instrument: true, Shards: 16, BudgetQuick: 150, BudgetThorough: 1500, Env: []string{"GOMAXPROCS=2"}}},
+		},
+		{
+			ID: "C06", Level: "model_checking",
+			Rule:        "stateless model checking of the real engine: every schedule within a delay bound of shutdown requested from every documented source at every reachable moment of short runs; virtual time (timers fire only when nothing else can run); oracle: Run/Client.Stop returns nil within the step horizon, OnShutdown exactly once, every opened connection closed exactly once before the return, nothing runs afterwards (the scheduler keeps going until no thread is enabled and all timers have fired)",
+			Assumptions: append([]string{"bounded time = bounded scheduler steps under the fairness rule; wall-clock time is not observed"}, commonAssumptions...),
+			Units:       []Unit{{Name: "shutdown", Pkg: ".", Tags: "verifmc", Test: "TestMC_C06", Instrument: true, Shards: 16, BudgetQuick: 150, BudgetThorough: 1500, Env: []string{"GOMAXPROCS=2"}}},
+		},
+		{
+			ID: "C07", Level: "model_checking",
+			Rule:        "same executions as C04, evaluated with the descriptor ledger kept by the system-call shim: ownership of every fd number, framework calls on closed or foreign descriptors, double close, leaks at the return of Run, unix-socket file removal",
+			Assumptions: append([]string{"descriptors created by package net (Dial/Enroll) are outside the ledger"}, commonAssumptions...),
+			Units:       []Unit{{Name: "fd", Pkg: ".", Tags: "verifmc", Test: "TestMC_C07", Instrument: true, Shards: 16, BudgetQuick: 150, BudgetThorough: 1500, Env: []string{"GOMAXPROCS=2"}}},
 		},
 		{
 			ID: "C09", Level: "model_checking",
